@@ -738,6 +738,10 @@ def enum_wait(thorough):
     # boot-up
     yield _base("wait", "init", [W("boot", [["A", 0]])])
     yield _base("wait", "preop", [W("boot", [["A", 0]])])
+    # the toggle bit is ignored: 0x80 is a boot-up message too
+    yield _base("wait", "preop", [W("boot", [["A", 0x80]])])
+    yield _base("wait", "init", [W("boot", [["A", 0x85], ["A", 0x80]])])
+    yield _base("wait", "preop", [W("boot", [["B", 0], ["A", 5], ["A", 0x80]])])
     for others in ([5], [127], [4, 5, 127], [0x85, 0x7F], [1], [0xFF]):
         yield _base("wait", "preop", [W("boot", [["A", o] for o in others] + [["A", 0]])])
         yield _base("wait", "preop", [W("boot", [["B", 0]] + [["A", o] for o in others] + [["A", 0]])])
